@@ -338,6 +338,8 @@ def run(chk):
             cf['W'] = 1
             ops = [('match', inst.T)] + [('widen', w) for w in rng.choice([[2, 3, 5], [2, 4], [3], [2, 3, 4, 6]])]
         cf['labels'] = rng.choice(['id', 'zero', 'zero', 'str', 'neg'])
+        if pid in ('C09', 'C03', 'C04', 'C05') and rng.random() < 0.3:
+            cf['debug'] = True      # package logger at DEBUG: stopped candidates are materialised in the lattice
         tid += 1
         runs.append(record_abs(tid, inst, cf, ops, unique=rng.random() < 0.4, want_aux=plan['aux']))
     # 3. trace validation in batches.  Conformance with the specification's own lattice (DRIFT, a
@@ -440,6 +442,8 @@ def absm_dangling_geo(m):
                     stored = col.o[p.obs_ne].get(p.key) if (col is not None and p.obs_ne < len(col.o)) else None
                     if stored is not p:
                         out.append([str(x.key), str(p.key)])
+                if len(x.prev) > 1:
+                    out.append([str(x.key), 'several-best-predecessors'])
     return out
 
 
